@@ -39,8 +39,9 @@ Definition gaccept (tab : list (N * list N)) (acc : N -> bool) (st : gstate) (o 
     if Bool.eqb adm admitted && set_eqb ds dests then Some st' else None
   end.
 
+(* gt_refusing: nodes whose ledger refuses the item (e.g. its parent is unknown there) *)
 Record gtrace := GTrace { gt_peers : list (N * list N); gt_origin : N; gt_steps : list gobs;
-                          gt_final_processed : list N; gt_final_inflight : nat }.
+                          gt_final_processed : list N; gt_final_inflight : nat; gt_refusing : list N }.
 
 Fixpoint grun_obs tab acc (st : gstate) (i : nat) (l : list gobs) : gstate * option nat :=
   match l with
@@ -49,7 +50,8 @@ Fixpoint grun_obs tab acc (st : gstate) (i : nat) (l : list gobs) : gstate * opt
   end.
 
 Definition gcheck (t : gtrace) : option nat :=
-  let '(st, bad) := grun_obs (gt_peers t) (fun _ => true) (origin_state (peers_of (gt_peers t)) (gt_origin t)) 0 (gt_steps t) in
+  let acc := fun n => negb (existsb (N.eqb n) (gt_refusing t)) in
+  let '(st, bad) := grun_obs (gt_peers t) acc (origin_state (peers_of (gt_peers t)) (gt_origin t)) 0 (gt_steps t) in
   match bad with
   | Some i => Some i
   | None => if set_eqb (processed st) (gt_final_processed t) && Nat.eqb (length (inflight st)) (gt_final_inflight t)
